@@ -96,8 +96,12 @@ CONTRACTS.update({
         properties=['C15'],
         types={'self': 'Ref[GraphProcessor]', 'des_var': 'Ref[DesVar]', 'value': 'Optional[Real]'},
         requires={'is-a-variable-of-this-problem': 'des_var in self.all_des_vars',
-                  'domain-set': 'implies(des_var._opts is None, des_var._bounds is not None)'},
-        calls={'self._update_comb_fixed_mask': dict(params=[], returns=None, modifies=['self._comb_fixed_mask'], receiver='self'),
+                  'domain-set': 'implies(des_var._opts is None, des_var._bounds is not None)',
+                  'each-choice-has-at-most-one-variable': 'forall(a, 0, len(self._sel_choice_idx_map), forall(b, 0, len(self._sel_choice_idx_map), implies(a != b, self._sel_choice_idx_map[a] != self._sel_choice_idx_map[b])))'},
+        funcs={'MASK': (['Dict[Int,Int]'], 'Ref')},     # the analyzer's answer (uninterpreted; same symbol as in the callee's contract)
+        # the mask refresh is checked against the contract of the real `_update_comb_fixed_mask` (below): its
+        # precondition (one variable per selection choice, set up by `_get_des_vars`) is a representation invariant
+        calls={'self._update_comb_fixed_mask': 'adsg_core/optimization/graph_processor.py:GraphProcessor._update_comb_fixed_mask',
                'clear_func_cache': dict(params=['obj'], returns=None, modifies=[])},
         loops={'for _, _, _, i_dv_start, i_dv_end, _ in self._conn_choice_data_map.values()': dict(processed='P', invariant={
             'no-connection-range-hit-so-far': 'forall(c, P, not (self._conn_choice_data_map[c][3] <= idx and idx < self._conn_choice_data_map[c][4]))',
@@ -155,6 +159,7 @@ def _domain_fix(n):
             gp._conn_choice_data_map[object()] = (None, None, None, a, rng.randint(a, len(dvs)), None)
         gp._comb_fixed_mask = None
         gp._update_comb_fixed_mask = lambda: None
+        gp._sel_choice_idx_map = list(range(rng.randint(0, len(dvs))))
         k = rng.randrange(len(dvs))
         value = rng.choice([None, -1, 0, 1, 2, 3, 0.5, 5.0])
         yield ({'self': gp, 'des_var': dvs[k], 'value': value},
@@ -163,6 +168,32 @@ def _domain_fix(n):
 
 
 DOMAIN[GP + 'GraphProcessor.fix_des_var'] = _domain_fix
+
+# freeing = fixing to None (checked against the contract of the real fix_des_var, not against its body)
+CONTRACTS[GP + 'GraphProcessor.free_des_var'] = dict(
+    properties=['C15'],
+    types={'self': 'Ref[GraphProcessor]', 'des_var': 'Ref[DesVar]'},
+    requires=dict(CONTRACTS[GP + 'GraphProcessor.fix_des_var']['requires']),
+    funcs={'MASK': (['Dict[Int,Int]'], 'Ref')},
+    calls={'self.fix_des_var': GP + 'GraphProcessor.fix_des_var'},
+    ensures={
+        'entry-removed': ('property', 'not (self.all_des_vars.index(des_var) in self._fixed_values)'),
+        'other-entries-unchanged': ('property', "forall('j:Int', implies(j != self.all_des_vars.index(des_var), (j in self._fixed_values) == (j in old(self._fixed_values)) and implies(j in self._fixed_values, self._fixed_values[j] == old(self._fixed_values)[j])))"),
+        'free-of-a-free-variable-changes-nothing': ('property', "implies(not (self.all_des_vars.index(des_var) in old(self._fixed_values)), forall('j:Int', (j in self._fixed_values) == (j in old(self._fixed_values))))"),
+    },
+    modifies=['self._fixed_values', 'self._comb_fixed_mask'],
+)
+
+
+def _domain_free(n):
+    from adsg_core.optimization.graph_processor import GraphProcessor
+    for env, _call, uni, desc in _domain_fix(n):
+        gp, dv = env['self'], env['des_var']
+        gp.fix_des_var = (lambda d, v, gp=gp: GraphProcessor.fix_des_var(gp, d, v))
+        yield ({'self': gp, 'des_var': dv}, (lambda gp=gp, dv=dv: GraphProcessor.free_des_var(gp, dv)), uni, 'free_des_var: ' + desc)
+
+
+DOMAIN[GP + 'GraphProcessor.free_des_var'] = _domain_free
 
 CLASSES['GraphProcessor'].update({'_sel_choice_idx_map': 'List[Int]', '_hierarchy_analyzer': 'Ref[HierarchyAnalyzerBase]'})
 
@@ -322,8 +353,7 @@ CONTRACTS[GP + 'GraphProcessor.get_graph@design-variable-values'] = dict(
         'graph_instance.copy': dict(params=[], returns='Ref[DSG]', modifies=[], assumed=True,
                                     ensures=['result._choice_constraints == old(graph_instance)._choice_constraints']),
         'graph_instance.set_des_var_value': 'adsg_core/graph/adsg.py:DSG.set_des_var_value',
-        'graph_instance.des_var_value': dict(params=['node'], returns='Optional[Real]', modifies=[], receiver='gi',
-                                             ensures=['result == ite(node in gi._des_var_values, gi._des_var_values[node], None)']),
+        'graph_instance.des_var_value': 'adsg_core/graph/adsg.py:DSG.des_var_value',
     },
     loops={'for i_dv, des_var_node in enumerate(self.design_variable_nodes)': dict(index='k', invariant={
         'len': 'len(used_values) == len(old(used_values))',
